@@ -17,12 +17,12 @@ The gates are the generated leaves `Gen.Shutdown.*`; what each step of the close
 forgets is a translated statement-level leaf used by the model (`GenFacts.Shutdown.*_holds`).  The raise sites
 of the close path are explicit outcomes (`Out.raised`): `NotRunningException` out of `async_wait_for_start`,
 `CancelledError` at a suspension point of `async_close`, and — sync `close()` from a non-loop thread —
-`RuntimeError` out of `Thread.join()` (finding D30) and `TimeoutError` out of `shutdown_loop` (finding D32).
+`RuntimeError` out of `Thread.join()` (finding D30) and `TimeoutError` out of `shutdown_loop` (finding D34).
 
 Three findings bound what can be proved (each: full statement as a `def`, `_refuted` at a witness, `_partial` with the
 finding's input class as hypothesis): **D15** a registration completing during the close's goodbye phase; **D30**
 `close()` called on the callback thread of a browser made by `add_service_listener`; **D31** a thread-based
-`ServiceBrowser` the instance does not track still has state changes queued when `close()` returns; **D32** two sync
+`ServiceBrowser` the instance does not track still has state changes queued when `close()` returns; **D34** two sync
 `close()` calls overlapping inside `_shutdown_threads()`. -/
 namespace Zc.Shutdown
 open Zc.GenFacts.Shutdown
@@ -85,7 +85,7 @@ theorem C17_quiet_core (h : Host) (hw : WF h) (hc : Closed h) (hts : ThreadsStop
     · exact hg _
   have hz : (zcClose h).2 = [] := by rw [zcClose_of_done h hd]
   cases b with
-  | recv s q d u da => simp [step, ht] at hs
+  | recv s q d u da aa => simp [step, ht] at hs
   | apiBrowse tr rp th zt => simp [Block.isBrowse] at hnb
   | cleanupFire e => simp [step, hcl] at hs
   | startUp => simp [step, hd] at hs
@@ -123,8 +123,8 @@ theorem C17_quiet_core (h : Host) (hw : WF h) (hc : Closed h) (hts : ThreadsStop
       | (simp only [Option.some.injEq, Prod.mk.injEq] at hs
          obtain ⟨_, rfl⟩ := hs
          first
-         | (simp [hg, hbody, hz, Out.isEmission]; done)
-         | (split <;> simp [hg, hbody, hz, Out.isEmission]; done))
+         | (simp [hg, hbody, hz, Out.isEmission, timerOnFinished_eq, notifyOnFinished_eq]; done)
+         | (split <;> simp [hg, hbody, hz, Out.isEmission, timerOnFinished_eq, notifyOnFinished_eq]; done))
 
 /-- **C17, quiet (one block), partial (D31).**  In a closed host in which no thread-based browser has state changes waiting
 in its queue, every block that can occur at all — timer, task resumption, a further close call (sync or async) or a step
@@ -230,7 +230,7 @@ def Block.plainClose : Block → Bool
 /-- **The raise sites.**  In any state, the only blocks that hand an exception to a caller are: an API call on a done
 instance (`NotRunningException`); the cancellation, by its caller, of the task awaiting an async close (`CancelledError`);
 `_close()` of a sync close running on the callback thread of a live browser of `Zeroconf.browsers` (`RuntimeError`, D30);
-`shutdown_loop` of a sync close on a loop that no longer runs (`TimeoutError`, D32).
+`shutdown_loop` of a sync close on a loop that no longer runs (`TimeoutError`, D34).
 (Exceptions that reach the *loop* are a different outcome, `Out.loopError`; see `C17_loop_error_site`.) -/
 theorem C17_raise_sites (h : Host) (b : Block) (h' : Host) (o : List Out) (hs : step h b = some (h', o))
     (e : Exc) (he : Out.raised e ∈ o) :
@@ -357,18 +357,20 @@ theorem C17_raise_sites (h : Host) (b : Block) (h' : Host) (o : List Out) (hs : 
             · exact hgr [] (by simp) e he)
          | (split at he
             · simp at he
-            · exact hcb _ _ he))
+            · exact hcb _ _ he)
+         | (rw [timerOnFinished_eq] at he; simp at he; done)
+         | (rw [notifyOnFinished_eq] at he; simp at he; done))
 
 /-- full-strength statement: no step of any close call, sync or async, in any state, hands an exception to its caller -/
 def C17_close_never_raises_full : Prop :=
   ∀ (h : Host) (b : Block), b.plainClose = true → ∀ (h' : Host) (o : List Out), step h b = some (h', o) → ∀ e, Out.raised e ∉ o
 
-/-- **No close call ever hands an exception to its caller, partial (D30, D32)** (other than the `CancelledError` of its own
+/-- **No close call ever hands an exception to its caller, partial (D30, D34)** (other than the `CancelledError` of its own
 cancellation): every block of every `async_close()` — called on a running instance, during start-up, overlapping any number
 of other closes, woken by the start-up event or by its own 1 s timeout, after another close has finished — and every block
 of every sync `close()` from a non-loop thread, **provided** the block is not `_close()` running on the callback thread of a
 live browser of `Zeroconf.browsers` (`selfJoins`: finding D30) and the loop-thread bookkeeping is intact (`LoopInv`: preserved
-by every block except a sync close entering `_shutdown_threads()` while another one is about to stop the loop — finding D32;
+by every block except a sync close entering `_shutdown_threads()` while another one is about to stop the loop — finding D34;
 `C17_loop_invariant`).  (Not covered: `EventLoopBlocked` out of sync `close()` on a blocked loop — outside the loop axioms.)
 False before fix 25230c1 for the async wait: `C17_wake_raised_before_fix`. -/
 theorem C17_close_never_raises_partial (h : Host) (b : Block) (hb : b.plainClose = true) (hnj : b.selfJoins h = false)
@@ -388,7 +390,7 @@ theorem C17_close_never_raises_partial (h : Host) (b : Block) (hb : b.plainClose
     · simp at hs
 
 /-- `LoopInv` holds on an instance whose loop runs and on which no close is in `_shutdown_threads()`, and is preserved by
-every block that is not in D32's class -/
+every block that is not in D34's class -/
 theorem C17_loop_invariant :
     (∀ h : Host, h.loopRunning = true → (∀ c ∈ h.closes, c.stage ≠ .stopping) → LoopInv h) ∧
     (∀ (h h' : Host) (b : Block) (o : List Out), LoopInv h → b.overlapsStop h = false → step h b = some (h', o) → LoopInv h') :=
@@ -396,13 +398,13 @@ theorem C17_loop_invariant :
    fun h h' b o hl hn hs => LoopInv_step h b h' o hl hn hs⟩
 
 /-- a history none of whose blocks, in the state in which it occurs, is in the class of finding D30 (`_close()` on the
-callback thread of a browser it must join) or of finding D32 (`_shutdown_threads()` entered while another sync close is
+callback thread of a browser it must join) or of finding D34 (`_shutdown_threads()` entered while another sync close is
 about to stop the loop) -/
 def ClassFree : Host → List Block → Prop
   | _, [] => True
   | h, b :: rest => b.selfJoins h = false ∧ b.overlapsStop h = false ∧ ∀ h' o, step h b = some (h', o) → ClassFree h' rest
 
-/-- the same for whole histories (partial: D30, D32): with no API call and no cancellation by a caller among the blocks,
+/-- the same for whole histories (partial: D30, D34): with no API call and no cancellation by a caller among the blocks,
 nothing raises — whatever interleaving of any number of sync/async closes, start-up, timers, tasks and traffic -/
 theorem C17_nothing_raises_run_partial (bs : List Block) (hapi : ∀ b ∈ bs, ∀ k, b ≠ .apiCall k) (hab : ∀ b ∈ bs, ∀ i, b ≠ .closeAbort i) :
     ∀ (h h' : Host) (o : List Out), LoopInv h → ClassFree h bs → run h bs = some (h', o) → ∀ e, Out.raised e ∉ o := by
@@ -595,7 +597,7 @@ theorem C17_close_progress (h : Host) (k : Nat) (c : Close) (b : Block) (hc : h.
 
 /-- **frame**: blocks that are not steps of close `k` — other closes' steps included — leave its program counter alone.
 With `C17_close_progress` (rank ≤ 12) this gives: under any interleaving in which a close call gets its turn at most
-twelve times, it has returned (or raised: cancelled by its caller, D30, D32); and by `C17_returned_closed` the block in
+twelve times, it has returned (or raised: cancelled by its caller, D30, D34); and by `C17_returned_closed` the block in
 which it returns ends `Closed`. -/
 theorem C17_close_frame (h : Host) (b : Block) (h' : Host) (o : List Out) (hs : step h b = some (h', o)) (k : Nat)
     (hb : b.closeIndex ≠ some k) (hk : k < h.closes.length) : h'.closes[k]? = h.closes[k]? :=
@@ -813,7 +815,7 @@ def recloseSync (h : Host) : List Block :=
     [.closeThreadsCheck k] ++ (if h.loopThread then [.closeThreadsStop k] else []))
 
 /-- **C17, closing again is a no-op (sync).**  On a closed host whose loop thread, if it has not been forgotten, still runs
-its loop (`LoopInv`'s first clause: true after any history free of D32's class — `C17_loop_invariant` — and what the assignment
+its loop (`LoopInv`'s first clause: true after any history free of D34's class — `C17_loop_invariant` — and what the assignment
 `self._loop_thread = None`, a translated leaf, is for), one more sync `close()` from a non-loop thread runs through all its
 blocks, emits nothing — no datagram, no callback — **raises nothing**, returns, and leaves `done` / transports / cleanup timer
 as they were. -/
@@ -947,36 +949,36 @@ theorem C17_second_cancel_asserts (h : Host) (hd : h.done = false) (b : Browser)
   exact ⟨b, hb, by simp [hz, hc]⟩
 
 /-- **No close call hands an exception to its caller — with the D30 repair in the tree** the class `selfJoins` is empty
-(`GenFacts.Shutdown.thread_cancel_guards_self_join_holds`): what remains is `LoopInv` (finding D32). -/
-theorem C17_close_never_raises_d32_partial (h : Host) (b : Block) (hb : b.plainClose = true)
+(`GenFacts.Shutdown.thread_cancel_guards_self_join_holds`): what remains is `LoopInv` (finding D34). -/
+theorem C17_close_never_raises_d34_partial (h : Host) (b : Block) (hb : b.plainClose = true)
     (hl : LoopInv h) (h' : Host) (o : List Out) (hs : step h b = some (h', o)) (e : Exc) : Out.raised e ∉ o :=
   C17_close_never_raises_partial h b hb (C17_selfJoins_repaired thread_cancel_guards_self_join_holds h b) hl h' o hs e
 
-/-- **D32, machine-checked.**  Two sync closes from two threads on an instance with its own loop thread, both past
+/-- **D34, machine-checked.**  Two sync closes from two threads on an instance with its own loop thread, both past
 `engine.close()`: both pass the `if not self._loop_thread` test, the first stops the loop and forgets the thread, the second
 calls `shutdown_loop` on a loop that no longer runs — `TimeoutError` out of `close()`.  The interleaving is not `ClassFree`
 (its seventh block enters `_shutdown_threads()` while another close is about to stop the loop). -/
-def d32Blocks : List Block :=
+def d34Blocks : List Block :=
   [.closeCall true, .closeCall true, .closeMarkDone 0 none, .closeMarkDone 1 none, .closeShutdown 0, .closeFinish 0,
    .closeShutdown 1, .closeFinish 1, .closeThreadsCheck 0, .closeThreadsCheck 1, .closeThreadsStop 0, .closeThreadsStop 1]
 
 theorem C17_overlapping_sync_closes_raise :
-    (run { threadHost with registry := 0 } d32Blocks).map (fun r => (r.2.filter isRaised, r.1.closes.map (·.stage))) =
+    (run { threadHost with registry := 0 } d34Blocks).map (fun r => (r.2.filter isRaised, r.1.closes.map (·.stage))) =
       some ([.raised .timeout], [.returned, .aborted]) := by decide
 
-/-- the full statement is false on every tree: the last block of the D32 interleaving is a step of a close and raises -/
+/-- the full statement is false on every tree: the last block of the D34 interleaving is a step of a close and raises -/
 theorem C17_close_never_raises_full_refuted : ¬ C17_close_never_raises_full := by
   intro hf
-  cases hr : run { threadHost with registry := 0 } (d32Blocks.take 11) with
+  cases hr : run { threadHost with registry := 0 } (d34Blocks.take 11) with
   | none => exact absurd hr (by decide)
   | some r =>
     cases hs : step r.1 (.closeThreadsStop 1) with
     | none =>
-      have : ((run { threadHost with registry := 0 } (d32Blocks.take 11)).bind (fun r => step r.1 (.closeThreadsStop 1))).isSome = true := by decide
+      have : ((run { threadHost with registry := 0 } (d34Blocks.take 11)).bind (fun r => step r.1 (.closeThreadsStop 1))).isSome = true := by decide
       rw [hr] at this
       simp [hs] at this
     | some r2 =>
-      have h2 : ((run { threadHost with registry := 0 } (d32Blocks.take 11)).bind (fun r => step r.1 (.closeThreadsStop 1))).map (·.2)
+      have h2 : ((run { threadHost with registry := 0 } (d34Blocks.take 11)).bind (fun r => step r.1 (.closeThreadsStop 1))).map (·.2)
           = some [.raised .timeout] := by decide
       rw [hr] at h2
       simp only [Option.bind, hs, Option.map, Option.some.injEq] at h2
@@ -1070,8 +1072,8 @@ example : LoopInv threadHost := C17_loop_invariant.1 threadHost rfl (by simp [th
 -- no longer runs, so no goodbyes, no engine step, no thread to stop)
 example : (run threadHost (syncSeq 0 ++ [.closeCall true, .closeMarkDone 1 none, .closeShutdown 1, .closeThreadsCheck 1])).map
     (fun r => (r.2.drop 5, r.1.closes.map (·.stage))) = some ([], [.returned, .returned]) := by decide
--- the first four blocks of the D32 interleaving are class-free, the tenth (the second `closeThreadsCheck`) is not
-example : (run { threadHost with registry := 0 } (d32Blocks.take 9)).map (fun r => Block.overlapsStop r.1 (.closeThreadsCheck 1)) = some true := by decide
+-- the first four blocks of the D34 interleaving are class-free, the tenth (the second `closeThreadsCheck`) is not
+example : (run { threadHost with registry := 0 } (d34Blocks.take 9)).map (fun r => Block.overlapsStop r.1 (.closeThreadsCheck 1)) = some true := by decide
 -- `_close()` from a plain thread is never in the class `selfJoins` (from the browser's own thread it is, on a tree without the
 -- D30 repair: `C17_selfJoins_unrepaired`)
 example : Block.selfJoins { threadHost with closes := [⟨true, .unregistering 0⟩] } (.closeMarkDone 0 none) = false := by
@@ -1087,5 +1089,43 @@ example : (run busy ([.recv 0 0 true false 0] ++ closeSeq ++ [.connectionLost, .
     (fun r => (r.1.tcs, r.2.contains .loopError)) = some ([], false) := by decide
 -- every close call of `overlapSeq` has ended, and `Close.next` says so
 example : (run busy overlapSeq).map (fun r => r.1.closes.map (fun c => c.next 0)) = some [none, none, none] := by decide
+
+/-! ## the timeout handle of a waiting task (seeded defect C17-w4-seed2)
+
+A task waiting in `Zeroconf.async_wait` (between two probes of a registration) holds a `call_later` handle.  The last step of
+every close resolves its future through `async_notify_all` — one loop iteration *after* the close returned — and the task cancels
+the handle only when it is resumed, an iteration later still: if the handle is due in between it fires on a finished future. -/
+
+/-- **the handle and the notification leave a finished future alone**: the two blocks in which a finished future is touched
+emit nothing (no `InvalidStateError` into the loop) — because both go through `_set_future_none_if_not_done` (translated:
+`waiter_timer_guarded`, `resolve_all_guarded`, and the test `not fut.done()` itself) -/
+theorem C17_waiter_timer_never_raises (h : Host) (i : Nat) (h' : Host) (o : List Out) (hs : step h (.waitFire i) = some (h', o)) : o = [] := by
+  simp only [step] at hs
+  split at hs
+  · simp only [Option.some.injEq, Prod.mk.injEq] at hs; exact hs.2.symm
+  · simp only [Option.some.injEq, Prod.mk.injEq] at hs; rw [← hs.2]; exact timerOnFinished_eq
+  · simp at hs
+
+theorem C17_notification_never_raises (h : Host) (h' : Host) (o : List Out) (hs : step h .notifyAll = some (h', o)) : o = [] := by
+  simp only [step, Option.some.injEq, Prod.mk.injEq] at hs
+  rw [← hs.2]
+  split
+  · exact notifyOnFinished_eq
+  · rfl
+
+/-- … and it is the guard that carries this: a handle armed with `future.set_result` directly (the seeded defect), or a guard
+that does not test `fut.done()`, raises into the loop in exactly the state a close produces — wait pending, close finished,
+notification, handle due before the task is resumed -/
+theorem C17_waiter_timer_raises_without_guard
+    (hbad : (Gen.Shutdown.waiter_timer_guarded && !Gen.Shutdown.waiter_guard_sets true) = false) (h : Host) (rest : List Wait) :
+    ∃ h', step { h with waits := .notified :: rest } (.waitFire 0) = some (h', [.loopError]) := by
+  simp only [step, List.getElem?_cons_zero, timerOnFinished, hbad]
+  exact ⟨_, rfl⟩
+
+-- a registration is probing (a wait pending) when the instance is closed; the notification of the close's last step comes
+-- after the return, the wait's handle is due before its task is resumed: nothing is emitted, nothing raises, the wait is gone
+example : (run busy ([.waitStart] ++ closeSeq ++ [.notifyAll, .waitFire 0])).map (fun r => (r.2.drop 9, r.1.waits)) = some ([], []) := by decide
+-- the other order: the handle fires first (the future is resolved by its timeout), then the notification finds it finished in the set
+example : (run busy ([.waitStart] ++ closeSeq ++ [.waitFire 0, .notifyAll, .waitResume 0])).map (fun r => (r.2.drop 9, r.1.waits)) = some ([], []) := by decide
 
 end Zc.Shutdown
